@@ -627,6 +627,9 @@ func (wk *scanWalker) walk(b *ssa.BasicBlock, st *State, depth int) {
 			wk.r.nPaths++
 			es := st.clone()
 			es.Guard = g
+			if tc.name == "_again" && wk.r.cut.name != "_again" {
+				wk.progressObligation(es)
+			}
 			wk.atCut(tc, es, fmt.Sprintf("%s->%s", labelOf(b), tc.name))
 		} else {
 			ns := st.clone()
@@ -694,6 +697,24 @@ func switchTag(b *ssa.BasicBlock) *ssa.UnOp {
 		return nil
 	}
 	return ld
+}
+
+// progressObligation (C01, no hang): an action that loops back to _again has consumed at least one
+// byte of the input since the token started (ts <= p; te == p+1 there, so the token is not empty).
+func (wk *scanWalker) progressObligation(st *State) {
+	x, se := wk.x, wk.se
+	a, ok := se.locals["lex"]
+	if !ok {
+		return
+	}
+	lexRef, isT := x.loadQuiet(st, se.localPtr[a]).(*Term)
+	if !isT {
+		return
+	}
+	p := tSelect(x.heapGet(st, se.fieldKeyOf("p"), SArrII), lexRef)
+	ts := tSelect(x.heapGet(st, se.fieldKeyOf("ts"), SArrII), lexRef)
+	o := &Obligation{Name: x.Prefix + "/progress/" + x.site("progress", wk.lastLabel+"->_again:the action has consumed input (ts <= p)"), Class: "progress", Props: se.props, Goal: tImp(st.Guard, tLe(ts, p))}
+	x.Sc.AddObligation(o)
 }
 
 var reStateLabel = regexp.MustCompile(`^st[1-9][0-9]*$`) // st0 is the error exit, not an advance
